@@ -20,6 +20,7 @@ import (
 
 	"verif/internal/cli"
 	"verif/internal/jgen"
+	"verif/internal/jgram"
 	"verif/internal/jref"
 	"verif/internal/jrw"
 	"verif/internal/pbt"
@@ -100,9 +101,15 @@ func widened() jgen.Opts {
 	return o
 }
 
-// Gen draws a case: three in four a fixture with 0-3 rewrites, one in four a jgen project.
+// Gen draws a case: two in five a fixture with 0-3 rewrites, one in five a jgen project, two in five a unit of
+// the grammar-directed generator internal/jgram (the one of C09), about half of which lie inside the quantifier.
 func Gen(t *rapid.T) Case {
-	if rapid.IntRange(0, 3).Draw(t, "source") == 3 {
+	src := rapid.IntRange(0, 4).Draw(t, "source")
+	if src >= 3 {
+		u := jgram.Gen(t)
+		return Case{Source: "jgram", Files: []File{{Path: "Unit.java", Text: u.Text}}}
+	}
+	if src == 2 {
 		p := jgen.GenProject(t, widened())
 		c := Case{Source: "jgen"}
 		main := map[string]bool{}
@@ -232,8 +239,8 @@ func Check(c Case, calls bool) pbt.Verdict {
 	if judged == 0 {
 		return pbt.Verdict{Skip: true}
 	}
-	if c.Source == "jgen" {
-		v.Classes = append(v.Classes, "any.source.jgen")
+	if c.Source == "jgen" || c.Source == "jgram" {
+		v.Classes = append(v.Classes, "any.source."+c.Source)
 	} else {
 		v.Classes = append(v.Classes, "any.source.fixture")
 		for _, op := range c.Ops {
@@ -273,4 +280,4 @@ func isTestOrIgnored(path string) bool {
 }
 
 // Rule is the text both sub-checks add to their evidence rule.
-const Rule = "sub-check anyjava: directories holding one repository .java fixture inside the quantifier (one top-level class or interface, no named type inside it; 129 of the 142 fixtures), rewritten 0-3 times token by token (re-indentation, inserted comments, consistent renaming of identifiers incl. non-ASCII and boundary names, blank lines, CR / CR LF line ends, other blanks, edges of the file), one case in four with a second fixture in a sub-directory; one case in four a jgen project with every body shape on (anonymous classes, lambdas, loops, scopes). Oracle: the reference reader internal/jref, which walks the shipped grammar's parse tree by hand (direct member functions with name, return type, constructor flag and (type, name) parameters; invocations and creations of each body in source order with the position of the callee identifier); judged clauses: exactly one entry per top-level type with its kind, per function name that no anonymous class re-declares exactly the declared functions (both passes; parameters in the full pass), no function entry whose name nothing in the type declares; for C02 the recorded calls of each function whose name is unique in the type equal the written ones in order, with positions selecting the callee identifier. Left open and skipped (counted as any.skip.*): varargs / receiver parameters / `String args[]`, this(...) / super(...) / qualified creations, method references and array creations (accepted recorded or not)."
+const Rule = "sub-check anyjava (two cases in five draw from the grammar-directed generator internal/jgram of C09 and judge the units inside the quantifier, about half of them; the others:) directories holding one repository .java fixture inside the quantifier (one top-level class or interface, no named type inside it; 129 of the 142 fixtures), rewritten 0-3 times token by token (re-indentation, inserted comments, consistent renaming of identifiers incl. non-ASCII and boundary names, blank lines, CR / CR LF line ends, other blanks, edges of the file), one case in four with a second fixture in a sub-directory; one case in four a jgen project with every body shape on (anonymous classes, lambdas, loops, scopes). Oracle: the reference reader internal/jref, which walks the shipped grammar's parse tree by hand (direct member functions with name, return type, constructor flag and (type, name) parameters; invocations and creations of each body in source order with the position of the callee identifier); judged clauses: exactly one entry per top-level type with its kind, per function name that no anonymous class re-declares exactly the declared functions (both passes; parameters in the full pass), no function entry whose name nothing in the type declares; for C02 the recorded calls of each function whose name is unique in the type equal the written ones in order, with positions selecting the callee identifier. Left open and skipped (counted as any.skip.*): varargs / receiver parameters / `String args[]`, this(...) / super(...) / qualified creations, method references and array creations (accepted recorded or not)."
